@@ -192,6 +192,22 @@ def kind_ok(name, n):
     return ar is None or n in ar
 
 
+# "keyed" heads: a description node may also be ((dictkind, keys), [children]) with dictkind in
+# dict / odict / ddict / ddictI and explicit keys in insertion order (ad-hoc key sets).
+_KEYED_MAKE = {
+    'dict': lambda kv: dict(kv),
+    'odict': lambda kv: OrderedDict(kv),
+    'ddict': lambda kv: defaultdict(list, kv),
+    'ddictI': lambda kv: defaultdict(int, kv),
+}
+_KEYED_SRC = {'dict': 'dict({})', 'odict': 'collections.OrderedDict({})', 'ddict': 'collections.defaultdict(list, {})',
+              'ddictI': 'collections.defaultdict(int, {})'}
+
+
+def keyed(kind, keys, children):
+    return ((kind, tuple(keys)), list(children))
+
+
 def build(d, counter=None):
     """Build the Python tree of a description; leaves are fresh L(i), numbered in construction order."""
     if counter is None:
@@ -200,6 +216,8 @@ def build(d, counter=None):
         if d[0] == 'leaf':
             return L(next(counter))
         return ATOMS[d[0]][0]()
+    if isinstance(d[0], tuple):
+        return _KEYED_MAKE[d[0][0]](list(zip(d[0][1], [build(c, counter) for c in d[1]])))
     return KT[d[0]][0]([build(c, counter) for c in d[1]])
 
 
@@ -211,12 +229,17 @@ def src(d, counter=None):
         if d[0] == 'leaf':
             return f'S.L({next(counter)})'
         return ATOMS[d[0]][1]
+    if isinstance(d[0], tuple):
+        items = ', '.join(f'({_ksrc(k)}, {src(c, counter)})' for k, c in zip(d[0][1], d[1]))
+        return _KEYED_SRC[d[0][0]].format('[' + items + ']')
     return KT[d[0]][2]([src(c, counter) for c in d[1]])
 
 
 def show(d):
     if len(d) == 1:
         return '*' if d[0] == 'leaf' else d[0]
+    if isinstance(d[0], tuple):
+        return d[0][0] + '{' + ', '.join(f'{k!r}: {show(c)}' for k, c in zip(d[0][1], d[1])) + '}'
     return f"{d[0]}({', '.join(show(c) for c in d[1])})"
 
 
@@ -306,6 +329,18 @@ def mutants(d, kinds=ALL_KINDS, atoms=ALL_ATOMS):
             yield replace_at(d, pos, ('tuple', [('leaf',)]))
             continue
         n = len(node[1])
+        if isinstance(node[0], tuple):
+            kk, keys = node[0]
+            for k2 in _KEYED_MAKE:
+                if k2 != kk:
+                    yield replace_at(d, pos, ((k2, keys), node[1]))
+            if n >= 2:
+                yield replace_at(d, pos, ((kk, keys[::-1]), node[1][::-1]))
+                yield replace_at(d, pos, ((kk, keys[:-1]), node[1][:-1]))
+            yield replace_at(d, pos, ((kk, keys[:-1] + ('zz',)), node[1]))
+            yield replace_at(d, pos, ((kk, keys + ('zz',)), node[1] + [('leaf',)]))
+            yield replace_at(d, pos, ('tuple', node[1]))
+            continue
         for k in kinds:
             if k != node[0] and kind_ok(k, n):
                 yield replace_at(d, pos, (k, node[1]))
@@ -461,7 +496,7 @@ def a_navigate(n, path):
     for e in path:
         hit = None
         for e2, c in zip(n.entries, n.children):
-            if type(e2) is type(e) and e2 == e or (e2 is e):
+            if e2 is e or e2 == e:
                 hit = c
                 break
         if hit is None:
@@ -693,15 +728,8 @@ def ns_compatible(x, y):
 def same_tree(a, b, leaf_eq=lambda x, y: x is y):
     if type(a) is not type(b):
         return False
-    if isinstance(a, CustomM):
-        return len(a.children) == len(b.children) and all(same_tree(x, y, leaf_eq) for x, y in zip(a.children, b.children))
-    if type(a) in STRUCTSEQ_TYPES:
-        return len(a) == len(b) and all(same_tree(x, y, leaf_eq) for x, y in zip(a, b))
-    return S.same_tree(a, b, leaf_eq) if not isinstance(a, (tuple, list, dict, deque, S.CustomE, S.CustomF, S.CustomN)) \
-        else _same_container(a, b, leaf_eq)
-
-
-def _same_container(a, b, leaf_eq):
+    if a is None:
+        return True
     if isinstance(a, dict):
         if list(a.keys()) != list(b.keys()):
             return False
@@ -710,12 +738,14 @@ def _same_container(a, b, leaf_eq):
         return all(same_tree(a[k], b[k], leaf_eq) for k in a)
     if isinstance(a, deque):
         return a.maxlen == b.maxlen and len(a) == len(b) and all(same_tree(x, y, leaf_eq) for x, y in zip(a, b))
-    if isinstance(a, (tuple, list)):
+    if isinstance(a, (tuple, list)):          # incl. namedtuple / struct sequence instances (exact type equal)
         return len(a) == len(b) and all(same_tree(x, y, leaf_eq) for x, y in zip(a, b))
-    if isinstance(a, (S.CustomE, S.CustomF)):
-        return a.meta == b.meta and len(a.children) == len(b.children) and \
+    if type(a) in REGISTERED_IN:
+        if getattr(a, 'meta', None) != getattr(b, 'meta', None):
+            return False
+        return len(a.children) == len(b.children) and \
             all(same_tree(x, y, leaf_eq) for x, y in zip(a.children, b.children))
-    return len(a.children) == len(b.children) and all(same_tree(x, y, leaf_eq) for x, y in zip(a.children, b.children))
+    return leaf_eq(a, b)
 
 
 # ------------------------------------------------------------------------------------------------
@@ -802,3 +832,145 @@ def thin(items, limit, rng):
         return items
     idx = sorted(rng.sample(range(len(items)), limit))
     return [items[i] for i in idx]
+
+
+# ------------------------------------------------------------------------------------------------
+# treespec constructor expressions (source text; evaluated by the monitors and pasted into scripts)
+
+TYPE_SRC = {
+    S.Point: 'S.Point', S.Triple: 'S.Triple', S.Single: 'S.Single', S.Empty: 'S.Empty',
+    PointB: 'U.PointB', TripleB: 'U.TripleB', SingleB: 'U.SingleB',
+    S.TermSize: 'S.TermSize', S.StructTime: 'S.StructTime', AsyncHooks: 'U.AsyncHooks',
+    S.CustomE: 'S.CustomE', S.CustomF: 'S.CustomF', S.CustomN: 'S.CustomN', CustomM: 'U.CustomM',
+    list: 'list', int: 'int', type(None): 'None',
+}
+
+
+def collection_src(n, child_srcs):
+    """Source of a python collection of node n's type (original insertion order for dict kinds) whose
+    children are the given source expressions (aligned with n.children)."""
+    k = n.kind
+    cs = list(child_srcs)
+    if k == 'none':
+        return 'None'
+    if k == 'tuple':
+        return '(' + ''.join(c + ', ' for c in cs) + ')'
+    if k == 'list':
+        return '[' + ', '.join(cs) + ']'
+    if k in DICT_KINDS:
+        m = dict(zip(n.keys, cs))
+        order = list(n.obj) if n.obj is not None else list(n.keys)
+        items = '[' + ', '.join(f'({_ksrc(kk)}, {m[kk]})' for kk in order) + ']'
+        if k == 'dict':
+            return f'dict({items})'
+        if k == 'odict':
+            return f'collections.OrderedDict({items})'
+        return f'collections.defaultdict({TYPE_SRC[n.meta] if n.meta is not None else None}, {items})'
+    if k == 'deque':
+        return 'collections.deque([' + ', '.join(cs) + f'], maxlen={n.meta!r})'
+    if k == 'namedtuple':
+        return f'{TYPE_SRC[n.typ]}(' + ', '.join(cs) + ')'
+    if k == 'structseq':
+        return f'{TYPE_SRC[n.typ]}((' + ''.join(c + ', ' for c in cs) + '))'
+    if k == 'custom':
+        if n.typ in (S.CustomE, S.CustomF):
+            return f'{TYPE_SRC[n.typ]}([' + ', '.join(cs) + f'], {n.meta!r})'
+        return f'{TYPE_SRC[n.typ]}([' + ', '.join(cs) + '])'
+    raise AssertionError(k)
+
+
+def ctor_src(n, nil, ns, generic=False):
+    """Source expression building the treespec of abstract tree n bottom-up with the treespec_* constructors
+    (generic=True: treespec_from_collection at every node)."""
+    tail = f'none_is_leaf={nil!r}, namespace={ns!r}'
+    if n.kind == 'leaf':
+        return f'optree.treespec_leaf({tail})'
+    if n.kind == 'none':
+        return f'optree.treespec_none({tail})'
+    cs = [ctor_src(c, nil, ns, generic) for c in n.children]
+    k = n.kind
+    if generic or k == 'custom':
+        return f'optree.treespec_from_collection({collection_src(n, cs)}, {tail})'
+    if k in ('tuple', 'list'):
+        return f'optree.treespec_{k}([' + ', '.join(cs) + f'], {tail})'
+    if k in DICT_KINDS:
+        m = dict(zip(n.keys, cs))
+        order = list(n.obj) if n.obj is not None else list(n.keys)
+        items = '[' + ', '.join(f'({_ksrc(kk)}, {m[kk]})' for kk in order) + ']'
+        if k == 'dict':
+            return f'optree.treespec_dict({items}, {tail})'
+        if k == 'odict':
+            return f'optree.treespec_ordereddict({items}, {tail})'
+        return f'optree.treespec_defaultdict({TYPE_SRC[n.meta] if n.meta is not None else None}, {items}, {tail})'
+    if k == 'deque':
+        return 'optree.treespec_deque([' + ', '.join(cs) + f'], maxlen={n.meta!r}, {tail})'
+    if k == 'namedtuple':
+        return f'optree.treespec_namedtuple({collection_src(n, cs)}, {tail})'
+    if k == 'structseq':
+        return f'optree.treespec_structseq({collection_src(n, cs)}, {tail})'
+    raise AssertionError(k)
+
+
+def ev(source, **extra):
+    """Evaluate a source expression produced by src()/ctor_src() in the namespace the scripts use."""
+    import collections
+    import copy
+    import pickle
+    env = {'optree': optree, 'collections': collections, 'S': S, 'U': sys.modules[__name__], 'pickle': pickle,
+           'copy': copy}
+    env.update(extra)
+    return eval(source, env)   # noqa: S307 - our own generated text
+
+
+def lit(x):
+    """Source text of a value used as an expected value in replay scripts."""
+    if isinstance(x, S.UKey):
+        return f'S.UK[{x.n}]'
+    if isinstance(x, type):
+        if x in TYPE_SRC:
+            return TYPE_SRC[x] if x is not type(None) else 'type(None)'
+        return {tuple: 'tuple', dict: 'dict', OrderedDict: 'collections.OrderedDict', defaultdict: 'collections.defaultdict',
+                deque: 'collections.deque'}.get(x, repr(x))
+    if isinstance(x, list):
+        return '[' + ', '.join(lit(y) for y in x) + ']'
+    if isinstance(x, tuple) and type(x) is tuple:
+        return '(' + ''.join(lit(y) + ', ' for y in x) + ')'
+    if isinstance(x, range):
+        return lit(list(x))
+    return repr(x)
+
+
+def ref_repr(n, nil, ns):
+    """repr(treespec) in the documented notation, or None when the tree has a node kind whose notation the
+    documentation does not show (struct sequences)."""
+    def r(x):
+        if x.kind == 'leaf':
+            return '*'
+        if x.kind == 'none':
+            return 'None'
+        ch = [r(c) for c in x.children]
+        if any(c is None for c in ch):
+            return None
+        k = x.kind
+        if k == 'tuple':
+            return '(' + ', '.join(ch) + (',' if len(ch) == 1 else '') + ')'
+        if k == 'list':
+            return '[' + ', '.join(ch) + ']'
+        if k in DICT_KINDS:
+            body = '{' + ', '.join(f'{kk!r}: {c}' for kk, c in zip(x.keys, ch)) + '}'
+            if k == 'dict':
+                return body
+            if k == 'odict':
+                return 'OrderedDict(' + (body if ch else '') + ')'
+            return f'defaultdict({x.meta!r}, {body})'
+        if k == 'deque':
+            return 'deque([' + ', '.join(ch) + ']' + (f', maxlen={x.meta}' if x.meta is not None else '') + ')'
+        if k == 'namedtuple':
+            return f'{x.typ.__name__}(' + ', '.join(f'{f}={c}' for f, c in zip(x.typ._fields, ch)) + ')'
+        if k == 'custom':
+            return f'CustomTreeNode({x.typ.__name__}[{x.meta!r}], [' + ', '.join(ch) + '])'
+        return None
+    body = r(n)
+    if body is None:
+        return None
+    return 'PyTreeSpec(' + body + (', NoneIsLeaf' if nil else '') + (f', namespace={ns!r}' if ns else '') + ')'
